@@ -110,7 +110,7 @@ def inline_helpers(facts, rounds=2):
         by_cdef.setdefault(b["cdef"], b)
     helpers = {}
     for b in facts["bodies"]:
-        if b["kind"] in ("Fn", "AssocFn") and b["cdef"] not in vocab and b.get("impl_trait") is None \
+        if b["kind"] in ("Fn", "AssocFn") and b["def"] not in vocab and b.get("impl_trait") is None \
                 and len(b["blocks"]) <= MAX_BLOCKS and not _is_coroutine_ctor(b):
             helpers[b["cdef"]] = b
     if not helpers:
